@@ -11,7 +11,7 @@ open Py Xs.Bind Xs.Dict
 /-- what the induction provides for model instances nested below the current one -/
 def IH (e : BEnv) (Γ : Ctx) (fac : Factory) (n : Nat) : Prop :=
   ∀ (c : ClassId) (v : Val), valOKj e Γ fac n c v = true →
-    ∃ kvs, encModelF Γ fac {} n v = .ok (.obj kvs) ∧ kvKeys kvs = encKeys Γ fac v ∧
+    ∃ kvs, encModelF Γ fac {} n v = .ok (.obj kvs) ∧ kvKeys kvs = encKeys Γ fac v ∧ (J.obj kvs).native = true ∧
       ∀ cfg : ParserConfig, bindDataclassF e Γ n cfg c (.obj kvs) = ND.pure v
 
 /-! ### facts packed in `varOKj` -/
@@ -197,10 +197,10 @@ theorem bindItem_obj (e : BEnv) (Γ : Ctx) (fac : Factory) (n : Nat) (ih : IH e 
     (m : XmlMeta) (var : XmlVar) (hv : varOKj var = true) (k k' : ClassId) (fs' : List (Str × Val))
     (hc : var.clazz = some k) (hok : valOKj e Γ fac n k' (.obj k' fs') = true)
     (hpool : poolOKj Γ fac k (.obj k' fs') = true) :
-    ∃ kvs, encModelF Γ fac {} n (.obj k' fs') = .ok (.obj kvs) ∧
+    ∃ kvs, encModelF Γ fac {} n (.obj k' fs') = .ok (.obj kvs) ∧ (J.obj kvs).native = true ∧
       bindItemWith e (bindDataclassF e Γ n) Γ cfg m var (.obj kvs) = ND.pure (.obj k' fs') := by
-  obtain ⟨kvs, henc, hkeys, hdec⟩ := ih k' _ hok
-  refine ⟨kvs, henc, ?_⟩
+  obtain ⟨kvs, henc, hkeys, hnat, hdec⟩ := ih k' _ hok
+  refine ⟨kvs, henc, hnat, ?_⟩
   obtain ⟨h1, h2, h3, h4, h5, h6, h7⟩ := varOKj_facts hv
   obtain ⟨n', hn⟩ := valOKj_succ hok
   subst hn
@@ -239,14 +239,15 @@ def isNoneV : Val → Bool
 theorem item_rt (e : BEnv) (Γ : Ctx) (fac : Factory) (n : Nat) (ih : IH e Γ fac n) (cfg : ParserConfig)
     (m : XmlMeta) (var : XmlVar) (hv : varOKj var = true) (x : Val)
     (hx : itemOKj (valOKj e Γ fac n) Γ fac var x = true) :
-    ∃ j, encElemWith (encModelF Γ fac {} n) x = .ok j ∧ j.isNull = isNoneV x ∧ j.isArr = false ∧
+    ∃ j, encElemWith (encModelF Γ fac {} n) x = .ok j ∧ j.isNull = isNoneV x ∧ j.isArr = false ∧ j.native = true ∧
       bindItemWith e (bindDataclassF e Γ n) Γ cfg m var j = ND.pure x := by
   cases x with
   | none =>
-    exact ⟨.null, rfl, rfl, rfl, bindItem_null e _ Γ cfg m var hv (by simpa [itemOKj] using hx)⟩
+    exact ⟨.null, rfl, rfl, rfl, rfl, bindItem_null e _ Γ cfg m var hv (by simpa [itemOKj] using hx)⟩
   | prim p =>
     have ht : var.types = [.prim (pvalType p)] := by simpa [itemOKj] using hx
-    refine ⟨encPrim p, rfl, ?_, ?_, bindItem_prim e _ Γ cfg m var hv p ht⟩
+    refine ⟨encPrim p, rfl, ?_, ?_, ?_, bindItem_prim e _ Γ cfg m var hv p ht⟩
+    · cases p <;> rfl
     · cases p <;> rfl
     · cases p <;> rfl
   | obj k' fs' =>
@@ -255,8 +256,8 @@ theorem item_rt (e : BEnv) (Γ : Ctx) (fac : Factory) (n : Nat) (ih : IH e Γ fa
     | none => simp [hc] at hx
     | some k =>
       simp only [hc, Bool.and_eq_true] at hx
-      obtain ⟨kvs, henc, hdec⟩ := bindItem_obj e Γ fac n ih cfg m var hv k k' fs' hc hx.1 hx.2
-      exact ⟨.obj kvs, henc, rfl, rfl, hdec⟩
+      obtain ⟨kvs, henc, hnat, hdec⟩ := bindItem_obj e Γ fac n ih cfg m var hv k k' fs' hc hx.1 hx.2
+      exact ⟨.obj kvs, henc, rfl, rfl, hnat, hdec⟩
   | list xs => simp [itemOKj] at hx
   | any q t tl a cs => simp [itemOKj] at hx
   | derived q y t => simp [itemOKj] at hx
@@ -272,6 +273,44 @@ theorem mapM_exists {α β} (f : α → Except Err β) :
     obtain ⟨j, hj⟩ := h x (List.mem_cons_self ..)
     obtain ⟨js, hjs⟩ := ih (fun y hy => h y (List.mem_cons_of_mem _ hy))
     exact ⟨j :: js, by rw [List.mapM_cons]; simp [hj, hjs, bind, Except.bind, pure, Except.pure]⟩
+
+theorem nativeList_of_mapM {α} (enc : α → Except Err J) :
+    ∀ (items : List α) (js : List J), items.mapM enc = .ok js →
+      (∀ x ∈ items, ∀ j, enc x = .ok j → j.native = true) → J.nativeList js = true := by
+  intro items
+  induction items with
+  | nil =>
+    intro js h _
+    simp [List.mapM_nil, pure, Except.pure] at h
+    subst h; rfl
+  | cons x xs ih =>
+    intro js h hall
+    rw [List.mapM_cons] at h
+    cases hx : enc x with
+    | error err => simp [hx, bind, Except.bind] at h
+    | ok j =>
+      cases hxs : xs.mapM enc with
+      | error err => simp [hx, hxs, bind, Except.bind] at h
+      | ok js' =>
+        simp [hx, hxs, bind, Except.bind, pure, Except.pure] at h
+        subst h
+        simp only [J.nativeList, Bool.and_eq_true]
+        exact ⟨hall x (List.mem_cons_self ..) j hx, ih js' hxs (fun y hy => hall y (List.mem_cons_of_mem _ hy))⟩
+
+theorem nativePairs_filter_map {α} (g : α → Str × J) (p : Str × J → Bool) :
+    ∀ l : List α, (∀ a ∈ l, (g a).2.native = true) → J.nativePairs ((l.map g).filter p) = true := by
+  intro l
+  induction l with
+  | nil => intro _; rfl
+  | cons a t ih =>
+    intro h
+    have ht := ih (fun b hb => h b (List.mem_cons_of_mem _ hb))
+    simp only [List.map_cons]
+    by_cases hp : p (g a) = true
+    · rw [List.filter_cons_of_pos hp]
+      simp only [J.nativePairs, Bool.and_eq_true]
+      exact ⟨h a (List.mem_cons_self ..), ht⟩
+    · rw [List.filter_cons_of_neg hp]; exact ht
 
 /-! ### one var -/
 
@@ -291,7 +330,7 @@ theorem bindValue_nonarr (e : BEnv) (rec : Rec) (Γ : Ctx) (cfg : ParserConfig) 
 theorem value_rt (e : BEnv) (Γ : Ctx) (fac : Factory) (n : Nat) (ih : IH e Γ fac n) (cfg : ParserConfig)
     (m : XmlMeta) (var : XmlVar) (hv : varOKj var = true) (x : Val)
     (hx : valueOKj (valOKj e Γ fac n) Γ fac var x = true) :
-    ∃ j, encVarWith fac (encModelF Γ fac {} n) var x = .ok j ∧ j.isNull = isNoneV x ∧
+    ∃ j, encVarWith fac (encModelF Γ fac {} n) var x = .ok j ∧ j.isNull = isNoneV x ∧ j.native = true ∧
       varMatches (keyOf var.toVarCore) j var = true ∧
       ∃ j', unwrapValue var j = .ok j' ∧
         bindValueWith e (bindDataclassF e Γ n) Γ cfg m var j' = ND.pure x := by
@@ -311,10 +350,18 @@ theorem value_rt (e : BEnv) (Γ : Ctx) (fac : Factory) (n : Nat) (ih : IH e Γ f
       have hdec : ND.mapM (bindItemWith e (bindDataclassF e Γ n) Γ cfg m var) js = ND.pure items := by
         apply nd_mapM_roundtrip _ _ items js hjs
         intro y hy j hj
-        obtain ⟨j0, hj0, _, _, hd⟩ := item_rt e Γ fac n ih cfg m var hv y (hx y hy)
+        obtain ⟨j0, hj0, _, _, _, hd⟩ := item_rt e Γ fac n ih cfg m var hv y (hx y hy)
         rw [hj0] at hj
         injection hj with hj
         rw [← hj]; exact hd
+      have hnat : (J.arr js).native = true := by
+        simp only [J.native]
+        exact nativeList_of_mapM _ items js hjs (by
+          intro y hy j hj
+          obtain ⟨j0, hj0, _, _, hn, _⟩ := item_rt e Γ fac n ih cfg m var hv y (hx y hy)
+          rw [hj0] at hj
+          injection hj with hj
+          rw [← hj]; exact hn)
       have hbind : bindValueWith e (bindDataclassF e Γ n) Γ cfg m var (.arr js) = ND.pure (.list items) := by
         unfold bindValueWith
         simp only [h1, Bool.false_eq_true, if_false, hl, if_true, hdec, nd_pure_bind]
@@ -322,14 +369,16 @@ theorem value_rt (e : BEnv) (Γ : Ctx) (fac : Factory) (n : Nat) (ih : IH e Γ f
         simp only [encCoreWith, hjs]; rfl
       cases hw : wrapperName var.toVarCore with
       | none =>
-        refine ⟨.arr js, ?_, rfl, ?_, .arr js, ?_, hbind⟩
+        refine ⟨.arr js, ?_, rfl, hnat, ?_, .arr js, ?_, hbind⟩
         · simp only [encVarWith, hw, hcore]
         · simp [varMatches, keyOf, hw, J.isArr, varIsList, hl]
         · simp [unwrapValue, hw]
       | some w =>
         have hne := (varOKj_wrapper hv w hw).2
-        refine ⟨.obj [(var.localName, .arr js)], ?_, rfl, ?_, .arr js, ?_, hbind⟩
+        refine ⟨.obj [(var.localName, .arr js)], ?_, rfl, ?_, ?_, .arr js, ?_, hbind⟩
         · simp only [encVarWith, hw, hcore, Except.map, fac_apply_single]
+        · have hnl : J.nativeList js = true := by simpa only [J.native] using hnat
+          simp [J.native, J.nativePairs, hnl]
         · simp [varMatches, keyOf, hw, hne, kvGet, J.isArr, varIsList, hl]
         · simp [unwrapValue, hw, kvGet]
     | none => simp at hx
@@ -349,13 +398,13 @@ theorem value_rt (e : BEnv) (Γ : Ctx) (fac : Factory) (n : Nat) (ih : IH e Γ f
       cases x with
       | list xs => simp at hx
       | _ => exact hx
-    obtain ⟨j, hj, hnull, harr, hd⟩ := item_rt e Γ fac n ih cfg m var hv x hitem
+    obtain ⟨j, hj, hnull, harr, hnat, hd⟩ := item_rt e Γ fac n ih cfg m var hv x hitem
     have hm : varMatches (keyOf var.toVarCore) j var = true := by
       simp [varMatches, keyOf, hw, harr, varIsList, hl', h7]
     have hb : bindValueWith e (bindDataclassF e Γ n) Γ cfg m var j = ND.pure x := by
       rw [bindValue_nonarr e _ Γ cfg m var h1 j harr]; exact hd
     have hu : unwrapValue var j = .ok j := by simp [unwrapValue, hw]
-    refine ⟨j, ?_, hnull, hm, j, hu, hb⟩
+    refine ⟨j, ?_, hnull, hnat, hm, j, hu, hb⟩
     cases x with
     | none =>
       simp only [encElemWith, encItemWith] at hj
@@ -635,16 +684,17 @@ theorem rt_step (e : BEnv) (Γ : Ctx) (fac : Factory) (n : Nat) (ih : IH e Γ fa
   have hper : ∀ (cfg : ParserConfig), ∀ var ∈ allVars m,
       encVarWith fac (encModelF Γ fac {} n) var (xOf fs var) = .ok (jOf fac (encModelF Γ fac {} n) fs var) ∧
       (jOf fac (encModelF Γ fac {} n) fs var).isNull = isNoneV (xOf fs var) ∧
+      (jOf fac (encModelF Γ fac {} n) fs var).native = true ∧
       varMatches (keyOf var.toVarCore) (jOf fac (encModelF Γ fac {} n) fs var) var = true ∧
       ∃ j', unwrapValue var (jOf fac (encModelF Γ fac {} n) fs var) = .ok j' ∧
         bindValueWith e (bindDataclassF e Γ n) Γ cfg m var j' = ND.pure (xOf fs var) := by
     intro cfg var hvar
     obtain ⟨x, hget, hval, _⟩ := hvars var hvar
     have hxo : xOf fs var = x := by simp [xOf, hget]
-    obtain ⟨j, henc, hnull, hm, hrest⟩ := value_rt e Γ fac n ih cfg m var (cv var hvar) x hval
+    obtain ⟨j, henc, hnull, hnat, hm, hrest⟩ := value_rt e Γ fac n ih cfg m var (cv var hvar) x hval
     have hj : jOf fac (encModelF Γ fac {} n) fs var = j := by simp [jOf, hxo, henc]
     rw [hj, hxo]
-    exact ⟨henc, hnull, hm, hrest⟩
+    exact ⟨henc, hnull, hnat, hm, hrest⟩
   have hkeep : ∀ var ∈ allVars m,
       keepP fac (pairOf fac (encModelF Γ fac {} n) fs var) = keptBy fac (xOf fs var) := by
     intro var hvar
@@ -662,7 +712,11 @@ theorem rt_step (e : BEnv) (Γ : Ctx) (fac : Factory) (n : Nat) (ih : IH e Γ fa
       simp [List.map_map, pairOf, Function.comp_def]
     rw [hmm] at hsub
     exact hsub.nodup cnd
-  refine ⟨((allVars m).map (pairOf fac (encModelF Γ fac {} n) fs)).filter (keepP fac), ?_, hkeys, ?_⟩
+  refine ⟨((allVars m).map (pairOf fac (encModelF Γ fac {} n) fs)).filter (keepP fac), ?_, hkeys, ?_, ?_⟩
+  rotate_left
+  · simp only [J.native, Bool.and_eq_true, decide_eq_true_eq]
+    exact ⟨hnd, nativePairs_filter_map _ _ _ (fun var hvar => (hper {} var hvar).2.2.1)⟩
+  rotate_left
   · simp only [encModelF, asObject, encObjWith, hmeta, hpairs, Except.map, fac_apply_eq, dictOf_nodup _ hnd]
   · intro cfg
     have hq : kQName ∉ kvKeys (((allVars m).map (pairOf fac (encModelF Γ fac {} n) fs)).filter (keepP fac)) := by
@@ -673,7 +727,7 @@ theorem rt_step (e : BEnv) (Γ : Ctx) (fac : Factory) (n : Nat) (ih : IH e Γ fa
     have hloop := bindPairs_eq e (bindDataclassF e Γ n) Γ cfg m (allVars m) fac (encModelF Γ fac {} n) fs
       (allVars m) [] (by
         intro var hvar
-        obtain ⟨_, _, hm, hrest⟩ := hper cfg var hvar
+        obtain ⟨_, _, _, hm, hrest⟩ := hper cfg var hvar
         refine ⟨?_, hrest, ?_⟩
         · apply find?_unique _ _ var hvar hm
           intro b hb hbm
